@@ -91,7 +91,22 @@ pub fn proxy_handler(
         let mut proxied_request = request.clone();
         proxied_request.uri = simplified_uri;
 
-        let target_sock = target.to_socket_addrs().unwrap().next().unwrap();
+        let target_sock = match target
+            .to_socket_addrs()
+            .ok()
+            .and_then(|mut addrs| addrs.next())
+        {
+            Some(target_sock) => target_sock,
+            None => {
+                // The target could not be resolved, which is a gateway error rather than a crash
+                state.logger.warn(format!(
+                    "{}: 502 Bad Gateway {}",
+                    request.address, request.uri
+                ));
+                return Response::empty(StatusCode::BadGateway)
+                    .with_bytes(b"<html><body><h1>502 Bad Gateway</h1></body></html>");
+            }
+        };
         let response = proxy_request(&proxied_request, target_sock, Duration::from_secs(5));
         let status: u16 = response.status_code.into();
         let status_string: &str = response.status_code.into();
